@@ -29,7 +29,8 @@ def base():
     return B
 
 
-PRICES = [CUR * (1 + d) for d in (-0.1, -0.0002, -0.00016, -0.00014, -0.0001, 0.0, 0.0001, 0.00014, 0.00016, 0.0002, 0.1)]
+PRICES = [CUR * (1 + d) for d in (-0.1, -0.0002, -0.00016, -0.000154, -0.000151, -0.000149, -0.00014, -0.0001, 0.0, 0.0001, 0.00014,
+                                  0.000149, 0.000151, 0.000154, 0.00016, 0.0002, 0.1)]
 
 
 def entry(side):
@@ -104,11 +105,17 @@ def exits(ptype):
 
 def modify(kind):
     from jesse.store import store
+    sl = kind == 'stop_loss'
+    cases = []
     for nrows in (1, 2):
+        cases.append(([(1, 90.0), (1, 85.0)][:nrows] if sl else [(1, 110.0), (1, 115.0)][:nrows],
+                      [(1, 95.0), (1, 92.0)][:nrows] if sl else [(1, 105.0), (1, 108.0)][:nrows]))
+    # a change of the number of rows is a modification even when the rows are identical
+    cases.append(([(1, 90.0), (1, 90.0)] if sl else [(1, 110.0), (1, 110.0)], [(1, 90.0)] if sl else [(1, 110.0)]))
+    cases.append(([(1, 90.0)] if sl else [(1, 110.0)], [(1, 90.0), (1, 90.0)] if sl else [(1, 110.0), (1, 110.0)]))
+    for first, second in cases:
         B = base()
         seen = {}
-        first = [(1, 90.0), (1, 85.0)][:nrows] if kind == 'stop_loss' else [(1, 110.0), (1, 115.0)][:nrows]
-        second = [(1, 95.0), (1, 92.0)][:nrows] if kind == 'stop_loss' else [(1, 105.0), (1, 108.0)][:nrows]
 
         class S(B):
             def should_long(self): return self.index == 1
@@ -117,11 +124,11 @@ def modify(kind):
                 self.buy = 2, self.price
 
             def on_open_position(self, order):
-                setattr(self, kind, list(first) if nrows > 1 else first[0])
+                setattr(self, kind, list(first) if len(first) > 1 else first[0])
 
             def update_position(self):
                 if self.index == 4:
-                    setattr(self, kind, list(second) if nrows > 1 else second[0])
+                    setattr(self, kind, list(second) if len(second) > 1 else second[0])
 
             def after(self):
                 if self.index == 5:
